@@ -110,6 +110,25 @@ def gen(rng, tier, index):
                                  ["prefer", y, x], ["add", DEFAULT]])
             k0 = rng.randrange(0, max(1, len(ops) // 2))
             ops = ops[:k0] + chain + [change] + ops[k0:]
+        elif rng.random() < 0.4:
+            # scenario bias "deep hierarchy" (after seeded change C18-e): a chain of depth 3-4, optionally with a
+            # second path (diamond), built in shuffled order, then edges removed / re-added near the TOP, so that
+            # ancestors/descendants of tags two or more levels below have to follow
+            depth = rng.choice([3, 4, 4])
+            tags = rng.sample(KWS, depth + 1) if rng.random() < 0.7 else rng.sample(CLS, 1) + rng.sample(KWS, depth)
+            build = [["derive", tags[i], tags[i + 1]] for i in range(depth)]
+            if rng.random() < 0.4:
+                build.append(["derive", tags[0], tags[rng.randrange(2, depth + 1)]])     # a second path
+            rng.shuffle(build)
+            build += [["add", t] for t in rng.sample(tags, rng.choice([1, 2]))]
+            edits = []
+            for _ in range(rng.choice([1, 2, 3])):
+                i = rng.randrange(1, depth)                 # an edge that has at least one level below it
+                edits.append(["underive", tags[i], tags[i + 1]])
+                if rng.random() < 0.4:
+                    edits.append(["derive", tags[i], tags[i + 1]])
+            k0 = rng.randrange(0, max(1, len(ops) // 2))
+            ops = ops[:k0] + build + edits + ops[k0:]
         return dict(base, mode="seq", ops=ops)
     if rng.random() < 0.35:
         # scenario bias: one edge x->y toggled while callers keep asking for x (and y has a method),
